@@ -630,6 +630,40 @@ void hist2()
   verif_reach("hist2-end");
 }
 
+// ---------------------------------------------------------------- aliasing value on BOTH paths, by construction
+// Every operation taking `T const &` (push_back, insert(pos,value), insert(pos,n,value), resize(n,value)) with a reference
+// to an element of the same vector, once on the in-place path (n=2, cap=4) and once on the reallocating path (n=cap=2);
+// that the intended path was taken is asserted through the capacity (in place: unchanged; reallocation: grown).
+template <typename T>
+void alias_paths()
+{
+  bool const realloc_path{verif_param("realloc") != 0};
+  unsigned const n{2U}, cap{realloc_path ? 2U : 4U};
+  seq<T> const m{sym_seq<T>(n, "x")};
+  std::allocator<T> a{};
+  T *const p{a.allocate(cap)};
+  for (unsigned i = 0; i < n; ++i) p[i] = m.a[i];
+  rv<T> v{rep_t<T>{a, p, p + n, p + cap}};
+  unsigned const op{shape("op", 3U)}, at{shape("alias_at", n - 1U)}, pos{shape("pos", n)}, cnt{1U + shape("cnt", 1U)};
+  T const &ref = v[at];
+  T const mval{m.a[at]};
+  seq<T> e;
+  switch (op)
+  {
+  case 0: v.push_back(ref); e = m_insert_fill(m, n, mval, 1U); break;
+  case 1:
+    verif_assert(v.insert(v.begin() + pos, ref) == v.begin() + pos, "aliasing insert(pos,value): returned iterator");
+    e = m_insert_fill(m, pos, mval, 1U);
+    break;
+  case 2: v.insert(v.begin() + pos, sz_t{cnt}, ref); e = m_insert_fill(m, pos, mval, cnt); break;
+  default: v.resize(sz_t{n + cnt}, ref); e = m_insert_fill(m, n, mval, cnt); break;
+  }
+  verif_out("capacity", v.capacity());
+  verif_assert((v.capacity() != cap) == realloc_path, "aliasing value: the intended path (in place / reallocating) was taken");
+  CHECK(v, e, "operation with a value aliasing an element");
+  verif_reach(realloc_path ? "alias-reallocating-end" : "alias-in-place-end");
+}
+
 // ---------------------------------------------------------------- dynamic_array (anchor): size/data/data_end, no leak
 template <typename T>
 void dynarray()
@@ -664,6 +698,7 @@ BOTH(compare, compare)
 BOTH(construct, construct)
 BOTH(hist2, hist2)
 BOTH(dynarray, dynarray)
+BOTH(alias_paths, alias_paths)
 
 //@harness h_push_back_{T} for T in i32,u8 param cap=0..4 param n=0..4 if n<=cap tier=quick leak=1
 //@harness h_pop_back_{T} for T in i32,u8 param cap=1..4 param n=1..4 if n<=cap tier=quick leak=1
@@ -680,6 +715,7 @@ BOTH(dynarray, dynarray)
 //@harness h_compare_{T} for T in i32,u8 param cap=0..3 param n=0..3 param cap2=0..3 param n2=0..3 if (n<=cap)&(n2<=cap2)&((cap==n)|(cap==3))&((cap2==n2)|(cap2==3)) tier=quick leak=1
 //@harness h_construct_{T} for T in i32,u8 param how=0..4 tier=quick leak=1
 //@harness h_dynarray_{T} for T in i32,u8 tier=quick leak=1
+//@harness h_alias_paths_{T} for T in i32,u8 param realloc=0..1 tier=quick leak=1
 //@harness h_hist2_{T} for T in i32,u8 param n0=0..2 param steps=2 param op1=0..7 param op2=8 if (n0>0)|((op1!=1)&(op1!=4)) tier=quick leak=1 paths=60000
 //@harness h_hist2_{T} for T in i32 param n0=0 param steps=3 param op1=0..7 param op2=8 if (op1!=1)&(op1!=4) tier=quick leak=1 paths=60000
 
